@@ -70,12 +70,13 @@ class CubicHermiteInterp(object):
         t2 = 2 * (t - self.tshift)/self.trange * (1/self.trange)
         t3 = 3 * (t - self.tshift)/self.trange * (t - self.tshift)/self.trange * (1/self.trange)
 
-        h00 = 2 * t3 - 3 * t2
         h10 = t3 - 2 * t2 + (1/self.trange)
         h01 = -2 * t3 + 3 * t2
         h11 = t3 - t2
 
-        return h00 * self.p0 + h10 * self.trange * self.m0 + h01 * self.p1 + h11 * self.trange * self.m1
+        # h00 = -h01: the end values enter through their difference (summed separately they cancel to rounding noise of
+        # size eps * |p| / |t1 - t0|, which swamps the slope on short steps)
+        return h01 * (self.p1 - self.p0) + h10 * self.trange * self.m0 + h11 * self.trange * self.m1
 
     def __repr__(self):
         return f"<CubicHermiteInterp(t0={self.t0}, t1={self.t1}, |p0|={D.ar_numpy.linalg.norm(self.p0)}, |dp|={D.ar_numpy.linalg.norm(self.p0 - self.p1)}, " \
